@@ -108,6 +108,13 @@ func (f *Frame) check(st *State, kind string, pos token.Pos, text string, goal T
 		st.assume(c, goal)
 		return
 	}
+	if c.block != nil && f.topFrame().fn == c.block.Target {
+		if reason, ok := c.block.AssumeKinds[kind]; ok {
+			c.note("assumed", kind+" checks in "+f.label+" assumed: "+reason)
+			st.assume(c, goal)
+			return
+		}
+	}
 	if !goal.IsTrue() {
 		c.addObl(&Obligation{Name: c.oblName(f.label, kind), Kind: kind, Fn: f.label, Pos: f.posOf(pos), Text: text, Reach: st.Reach, Goal: goal})
 	}
